@@ -40,6 +40,8 @@ pub struct Profile {
     /// directory of the note being generated (links are written relative to it)
     pub dir: String,
     pub tables: bool,
+    /// table cells may hold inline markup (emphasis, code, links, images); otherwise plain words (what the model renders)
+    pub table_markup: bool,
     pub refs: bool,
     /// links inside paragraphs / headings / items to other notes (block references are `refs`)
     pub inline_note_links: bool,
@@ -47,7 +49,7 @@ pub struct Profile {
 
 impl Default for Profile {
     fn default() -> Self {
-        Profile { wf: true, max_blocks: 8, max_depth: 3, keys: vec![], dir: String::new(), tables: true, refs: true, inline_note_links: true }
+        Profile { wf: true, max_blocks: 8, max_depth: 3, keys: vec![], dir: String::new(), tables: true, table_markup: false, refs: true, inline_note_links: true }
     }
 }
 
@@ -82,6 +84,18 @@ impl<'a> DocGen<'a> {
         } else {
             self.r.pick(&["https://example.com/a", "http://x.org", "mailto:me@example.com", "HTTPS://UP.example"]).to_string()
         }
+    }
+
+    /// a table cell: a word, or (with `table_markup`) a run of inlines without wiki links (finding D37) and `|`
+    fn cell(&mut self) -> String {
+        if !self.p.table_markup || self.r.chance(1, 3) {
+            return self.word();
+        }
+        let xs: Vec<I> = self.inlines(0).into_iter().filter(|i| !matches!(i, I::Wiki { .. })).collect();
+        if xs.is_empty() {
+            return self.word();
+        }
+        inl(&xs)
     }
 
     pub fn inlines(&mut self, depth: usize) -> Vec<I> {
@@ -228,9 +242,9 @@ impl<'a> DocGen<'a> {
                         continue;
                     }
                     let cols = self.r.range(1, 3);
-                    let head = (0..cols).map(|_| self.word()).collect();
+                    let head = (0..cols).map(|_| self.cell()).collect();
                     let align = (0..cols).map(|_| self.r.below(4) as u8).collect();
-                    let rows = (0..self.r.range(0, 2)).map(|_| (0..cols).map(|_| self.word()).collect()).collect();
+                    let rows = (0..self.r.range(0, 2)).map(|_| (0..cols).map(|_| self.cell()).collect()).collect();
                     B::Table { head, align, rows }
                 }
                 _ => {
